@@ -1688,8 +1688,9 @@ class Verifier(Exec):
             invs = [auto] + invs
         # 1. invariants on entry
         nauto = len(invs) - (len(spec.invariants) if spec else 0)
+        ts_ = [self.eval_clause(cl, st, env, self.old) for cl in invs]
         for i, cl in enumerate(invs):
-            t = self.eval_clause(cl, st, env, self.old)
+            t = ts_[i]
             self.oblige(st, 'inv', 'loop%s.%s:entry' % (lp.ordinal, 'auto' if cl.src == 'auto:range' else i - nauto), t, {'clause': cl.text}, cl.props)
         # 2. havoc
         cells, heaps = self.loop_modified(lp)
@@ -1771,8 +1772,9 @@ class Verifier(Exec):
         if spec:
             for u in spec.asserts:
                 self.apply_use(u, st, env)
+        ts_ = [self.eval_clause(cl, st, env, self.old) for cl in invs]     # evaluate first: unfolding facts of all clauses are available to each
         for i, cl in enumerate(invs):
-            t = self.eval_clause(cl, st, env, self.old)
+            t = ts_[i]
             self.oblige(st, 'inv', 'loop%s.%s:preserved' % (lp.ordinal, 'auto' if cl.src == 'auto:range' else i - (len(invs) - len(spec.invariants) if spec else 0)), t, {'clause': cl.text}, cl.props)
         if spec:
             if spec.decreases is not None:
@@ -1877,9 +1879,9 @@ class Verifier(Exec):
                     env[rn[i]] = v
         for u in spec.uses:
             self.apply_use(u, st, env)
+        ts_ = [SpecEval(self, st, env, self.old, cl.src).boolean(cl.expr) for cl in spec.ensures]
         for i, cl in enumerate(spec.ensures):
-            ev = SpecEval(self, st, env, self.old, cl.src)
-            t = ev.boolean(cl.expr)
+            t = ts_[i]
             self.oblige(st, 'post', '%d@ret%d' % (i, idx), t, {'clause': cl.text, 'results': vals}, cl.props)
         if self.opts.get('shape') is not None:
             for i, cl in enumerate(getattr(spec, 'bensures', [])):
